@@ -162,4 +162,16 @@ def typed_builtin_texts():
                 out.append(pos.format(c=f"{fn}({args})"))
             if fn in ("match", "search"):
                 out.append(f"$[?{fn}('a', {sh})]")
+        # wrong arity, with plain and parenthesised surplus / missing arguments
+        base = "@.a" if fn in ("length", "count", "value") else "@.a, 'a'"
+        for extra in ("(@.b)", "@.b", "1", "(@.b == 1)", "(@.b), (@.c)", "@.b, (@.c)", "(1)", "!@.b"):
+            out += [f"$[?{fn}({base}, {extra}) == 1]", f"$[?{fn}({base}, {extra})]", f"$[?{fn}({extra}, {base}) > 1]"]
+        out += [f"$[?{fn}()]", f"$[?{fn}() == 1]", f"$[?{fn}((@.a))]", f"$[?{fn}((@.a)) == 1]", f"$[?{fn}((@.a), 'a')]", f"$[?{fn}('a', (@.a))]",
+                f"$[?{fn}(((@.a)))]", f"$[?{fn}(@.a,) == 1]", f"$[?{fn}(,@.a)]"]
     return list(dict.fromkeys(out))
+
+
+# selector lists that continue after a nested filter, inside function arguments and nested brackets
+SEEDS += ["$[?count(@[?@.x, 0]) > 1]", "$[?count(@[?@.x, ?@ == 2]) == 2]", "$[?count(@[?@.a, *]) > 0]", "$[?value(@[?@.a, 1:2]) == 1]",
+          "$[?count(@[?@, 'a', 0, ::2]) >= 1 && @[?@, 0]]", "$[?match(@.s, 'a') || count(@[?@.b, 0]) == 1]", "$[?@[?@.a, 0], 0]",
+          "$[?count(@[0, ?@.x]) > 1]", "$[?length(@[?count(@[?@, 0]) > 0, 0]) > 0 || @]" if False else "$[?count(@[?count(@[?@, 0]) > 0, 0]) > 0]"]
